@@ -27,7 +27,7 @@ func init() {
 		Explain: "A data race needs two goroutines, one location and at least one write. Locations two concurrent calls on one instance can both reach are (a) the configuration graph and globals, (b) the caller's source buffer, (c) what a call allocates and publishes. S: no write to (a) outside a Once-closure, hence (c) is empty; O: every write to (a) reachable from an entry point is inside the closure handed to sync.Once.Do on a Once that is a field of the initialised object (or a global), and the Do call dominates every read of the fields the closure writes; I: the global registries (node kinds, context keys, case-folding table) are written only from package initialisation; B (= C12): the source buffer is never written; T: every foreign method call on a receiver loaded from shared memory has a concurrency-safe receiver type. With these, every write performed by a call goes to memory no other call can reach: no race, and no call observes another call's writes.",
 		Trusted: []string{"Go memory model for sync.Once", "table of concurrency-safe stdlib receiver types (regexp.Regexp, sync.Once, unicode.RangeTable)", "VTA call graph with pass-site refinement (DESIGN 2.2)", "type-directed memory classes (DESIGN 2.3)", "C12 (source buffer never written; no unsafe writes)"},
 		Assumes: []string{"user-supplied extensions out of scope", "the same AST is not rendered concurrently with itself (node memoisation is per tree)"},
-		Rules:   []func(*World, *Report){ruleNoSharedState("C07-S"), ruleOnceDiscipline, ruleInitOnlyRegistries, ruleThreadSafeObjects, ruleSourceNeverWrittenSummary, ruleConfiguredComponentsOwned},
+		Rules:   []func(*World, *Report){ruleNoSharedState("C07-S"), ruleStatelessSharedObjects, ruleOnceDiscipline, ruleInitOnlyRegistries, ruleThreadSafeObjects, ruleSourceNeverWrittenSummary, ruleConfiguredComponentsOwned},
 	})
 }
 
